@@ -662,8 +662,122 @@ async fn c37_announce(ctx: Ctx) {
     }
 }
 
+/// One policy at a time: every policy of DataReaderQos / DataWriterQos is changed alone, on an entity that is not yet enabled
+/// (everything consistent is accepted), and on an enabled one (the DDS "Changeable" column decides); after every set_qos,
+/// get_qos must return the accepted value or the previous one. Then the same change is tried again after enable().
+async fn c37_policies(ctx: Ctx, reader_side: bool) {
+    let f = ctx.factory("", None);
+    let p = f.create_participant(0, QosKind::Default, NO_LISTENER, NO_STATUS).await.unwrap();
+    let topic = p.create_topic::<KeyedData>("T", "T", QosKind::Default, NO_LISTENER, NO_STATUS).await.unwrap();
+    let enabled_at_creation = ctx.choose(b'O', 2) == 0;
+    let factory = EntityFactoryQosPolicy { autoenable_created_entities: enabled_at_creation };
+    let fin = |s: i32| DurationKind::Finite(Duration::new(s, 0));
+    // (name, changeable on an enabled entity, consistent)
+    let side = if reader_side { "reader" } else { "writer" };
+    macro_rules! run {
+        ($ent:expr, $q0:expr, $changes:expr) => {{
+            let changes = $changes;
+            let k = ctx.choose(b'O', changes.len());
+            let (name, changeable, consistent, apply) = &changes[k];
+            let ent = $ent;
+            let q0 = $q0;
+            if ent.get_qos().await.unwrap() != q0 {
+                ctx.violation(format!("{side}/policies/get_qos-differs-from-created"), "default");
+            }
+            for round in 0..2 {
+                // round 0: as created (enabled or not); round 1: after enable()
+                let enabled = enabled_at_creation || round == 1;
+                let before = ent.get_qos().await.unwrap();
+                let mut q = before.clone();
+                apply(&mut q, round);
+                let changed = q != before;
+                let r = ent.set_qos(QosKind::Specific(q.clone())).await;
+                let exp = if !*consistent { "InconsistentPolicy" } else if enabled && !*changeable && changed { "ImmutablePolicy" } else { "Ok" };
+                let g = err_name(&r);
+                if g != exp {
+                    ctx.violation(format!("{side}/policies/{name}/enabled={enabled}/expected={exp}/got={g}"), format!("set_qos changing only `{name}` on a {side} that is {}enabled", if enabled { "" } else { "not " }));
+                }
+                let after = ent.get_qos().await.unwrap();
+                let want = if r.is_ok() { &q } else { &before };
+                if &after != want {
+                    ctx.violation(format!("{side}/policies/{name}/enabled={enabled}/not-atomic/{g}"), format!("get_qos after set_qos -> {g} returns neither the accepted nor the previous QoS"));
+                }
+                if round == 0 {
+                    if let Err(e) = ent.enable().await {
+                        ctx.violation(format!("{side}/policies/enable-failed/{e:?}"), "enable()");
+                        return;
+                    }
+                    if ent.get_qos().await.unwrap() != after {
+                        ctx.violation(format!("{side}/policies/{name}/qos-changed-by-enable"), "get_qos differs before/after enable()");
+                    }
+                }
+            }
+        }};
+    }
+    if reader_side {
+        let subscriber = p.create_subscriber(QosKind::Specific(SubscriberQos { entity_factory: factory, ..Default::default() }), NO_LISTENER, NO_STATUS).await.unwrap();
+        let q0 = DataReaderQos::default();
+        let r = subscriber.create_datareader::<KeyedData>(&topic, QosKind::Specific(q0.clone()), NO_LISTENER, NO_STATUS).await.unwrap();
+        type A = Box<dyn Fn(&mut DataReaderQos, usize)>;
+        let changes: Vec<(&str, bool, bool, A)> = vec![
+            ("durability", false, true, Box::new(|q, _| q.durability.kind = DurabilityQosPolicyKind::TransientLocal)),
+            ("liveliness.kind", false, true, Box::new(|q, _| q.liveliness.kind = LivelinessQosPolicyKind::ManualByTopic)),
+            ("liveliness.lease_duration", false, true, Box::new(move |q, _| q.liveliness.lease_duration = fin(7))),
+            ("reliability.kind", false, true, Box::new(|q, _| q.reliability.kind = if q.reliability.kind == ReliabilityQosPolicyKind::Reliable { ReliabilityQosPolicyKind::BestEffort } else { ReliabilityQosPolicyKind::Reliable })),
+            ("reliability.max_blocking_time", false, true, Box::new(move |q, _| q.reliability.max_blocking_time = fin(3))),
+            ("destination_order", false, true, Box::new(|q, _| q.destination_order.kind = DestinationOrderQosPolicyKind::BySourceTimestamp)),
+            ("history.depth", false, true, Box::new(|q, _| q.history.kind = HistoryQosPolicyKind::KeepLast(2))),
+            ("history.kind", false, true, Box::new(|q, _| q.history.kind = HistoryQosPolicyKind::KeepAll)),
+            ("resource_limits.max_samples", false, true, Box::new(|q, _| { q.resource_limits.max_samples = Length::Limited(50); q.resource_limits.max_samples_per_instance = Length::Limited(50); })),
+            ("inconsistent:max_samples<unlimited-per-instance", false, false, Box::new(|q, _| q.resource_limits.max_samples = Length::Limited(50))),
+            ("resource_limits.max_instances", false, true, Box::new(|q, _| q.resource_limits.max_instances = Length::Limited(5))),
+            ("ownership", false, true, Box::new(|q, _| q.ownership.kind = OwnershipQosPolicyKind::Exclusive)),
+            ("deadline", true, true, Box::new(move |q, round| q.deadline.period = fin(5 + round as i32))),
+            ("latency_budget", true, true, Box::new(move |q, round| q.latency_budget.duration = fin(1 + round as i32))),
+            ("user_data", true, true, Box::new(|q, round| q.user_data.value = vec![1, 2, round as u8])),
+            ("time_based_filter", true, true, Box::new(move |q, round| q.time_based_filter.minimum_separation = fin(1 + round as i32))),
+            ("reader_data_lifecycle", true, true, Box::new(move |q, round| q.reader_data_lifecycle.autopurge_disposed_samples_delay = fin(9 + round as i32))),
+            ("inconsistent:deadline<time_based_filter", true, false, Box::new(move |q, _| { q.deadline.period = fin(1); q.time_based_filter.minimum_separation = fin(2); })),
+            ("inconsistent:max_samples<max_samples_per_instance", false, false, Box::new(|q, _| { q.resource_limits.max_samples = Length::Limited(1); q.resource_limits.max_samples_per_instance = Length::Limited(2); })),
+            ("inconsistent:depth>max_samples_per_instance", false, false, Box::new(|q, _| { q.history.kind = HistoryQosPolicyKind::KeepLast(3); q.resource_limits.max_samples_per_instance = Length::Limited(2); })),
+        ];
+        run!(r, q0, changes);
+    } else {
+        let publisher = p.create_publisher(QosKind::Specific(PublisherQos { entity_factory: factory, ..Default::default() }), NO_LISTENER, NO_STATUS).await.unwrap();
+        let q0 = DataWriterQos::default();
+        let w = publisher.create_datawriter::<KeyedData>(&topic, QosKind::Specific(q0.clone()), NO_LISTENER, NO_STATUS).await.unwrap();
+        type A = Box<dyn Fn(&mut DataWriterQos, usize)>;
+        let changes: Vec<(&str, bool, bool, A)> = vec![
+            ("durability", false, true, Box::new(|q, _| q.durability.kind = DurabilityQosPolicyKind::TransientLocal)),
+            ("liveliness.kind", false, true, Box::new(|q, _| q.liveliness.kind = LivelinessQosPolicyKind::ManualByTopic)),
+            ("liveliness.lease_duration", false, true, Box::new(move |q, _| q.liveliness.lease_duration = fin(7))),
+            ("reliability.kind", false, true, Box::new(|q, _| q.reliability.kind = if q.reliability.kind == ReliabilityQosPolicyKind::Reliable { ReliabilityQosPolicyKind::BestEffort } else { ReliabilityQosPolicyKind::Reliable })),
+            ("reliability.max_blocking_time", false, true, Box::new(move |q, _| q.reliability.max_blocking_time = fin(3))),
+            ("destination_order", false, true, Box::new(|q, _| q.destination_order.kind = DestinationOrderQosPolicyKind::BySourceTimestamp)),
+            ("history.depth", false, true, Box::new(|q, _| q.history.kind = HistoryQosPolicyKind::KeepLast(2))),
+            ("history.kind", false, true, Box::new(|q, _| q.history.kind = HistoryQosPolicyKind::KeepAll)),
+            ("resource_limits.max_samples", false, true, Box::new(|q, _| { q.resource_limits.max_samples = Length::Limited(50); q.resource_limits.max_samples_per_instance = Length::Limited(50); })),
+            ("inconsistent:max_samples<unlimited-per-instance", false, false, Box::new(|q, _| q.resource_limits.max_samples = Length::Limited(50))),
+            ("resource_limits.max_instances", false, true, Box::new(|q, _| q.resource_limits.max_instances = Length::Limited(5))),
+            ("ownership", false, true, Box::new(|q, _| q.ownership.kind = OwnershipQosPolicyKind::Exclusive)),
+            ("deadline", true, true, Box::new(move |q, round| q.deadline.period = fin(5 + round as i32))),
+            ("latency_budget", true, true, Box::new(move |q, round| q.latency_budget.duration = fin(1 + round as i32))),
+            ("user_data", true, true, Box::new(|q, round| q.user_data.value = vec![1, 2, round as u8])),
+            ("lifespan", true, true, Box::new(move |q, round| q.lifespan.duration = fin(20 + round as i32))),
+            ("ownership_strength", true, true, Box::new(|q, round| q.ownership_strength.value = 3 + round as i32)),
+            ("transport_priority", true, true, Box::new(|q, round| q.transport_priority.value = 2 + round as i32)),
+            ("writer_data_lifecycle", true, true, Box::new(|q, round| q.writer_data_lifecycle.autodispose_unregistered_instances = round == 1)),
+            ("inconsistent:max_samples<max_samples_per_instance", false, false, Box::new(|q, _| { q.resource_limits.max_samples = Length::Limited(1); q.resource_limits.max_samples_per_instance = Length::Limited(2); })),
+            ("inconsistent:depth>max_samples_per_instance", false, false, Box::new(|q, _| { q.history.kind = HistoryQosPolicyKind::KeepLast(3); q.resource_limits.max_samples_per_instance = Length::Limited(2); })),
+        ];
+        run!(w, q0, changes);
+    }
+}
+
 pub fn c37(_args: &Args) -> Vec<Scenario> {
     vec![
+        Scenario::new("C37.policies[reader]", 99, |ctx| c37_policies(ctx, true)).cfg(|c| c.keep_logs = false),
+        Scenario::new("C37.policies[writer]", 99, |ctx| c37_policies(ctx, false)).cfg(|c| c.keep_logs = false),
         Scenario::new("C37.reader[create+set]", 99, |ctx| c37_prog(ctx, true)).cfg(|c| c.keep_logs = false),
         Scenario::new("C37.writer[create+set]", 99, |ctx| c37_prog(ctx, false)).cfg(|c| c.keep_logs = false),
         Scenario::new("C37.announce[writer]", 99, c37_announce),
